@@ -98,12 +98,13 @@ PROPS = {
                    'count, basis, all solution vectors), and (c) copy-constructed / assigned objects taken at five kinds of history points: '
                    'equality of LP, all parameters, observable tolerances, basis, status and solution, identical re-solves, and independence in '
                    'both directions under modifications, parameter changes, solves and destruction of the other object (ASan watches dangling '
-                   'pointers). Sampling of inputs x configurations x history points.',
+                   'pointers); (d) state leaking between solves: an object that solved, was modified and had its basis cleared must reach the '
+                   'verdict and optimal value of a new object given the same LP (judged on certified, tolerance-robust LPs). Sampling of inputs x configurations x history points.',
         level_note='floating-point mode; exact-mode copies are exercised in the C03/C07 harness; cross-process comparison not built',
         technique='runtime monitoring: bitwise snapshot comparison of twin/copy objects over seeded API histories under ASan+UBSan, plus valgrind memcheck (uninitialised state carried by copies)',
         stages=lambda t: two_flavour('h_solve', 1200, 5000, 25000, 80000)(t) + [memcheck_stage('h_solve', 96, 3200)(t)],
         minima=lambda t: {'memcheck.cases_completed': 90, 'c17.twin_solves': 200, 'c17.resolve_after_clearBasis': 150, 'c17.copy_resolve_compared': 150,
-                          'c17.independence_next_solve_compared': 200},
+                          'c17.independence_next_solve_compared': 200, 'c17.history.judged': 100},
         eval_counter='cases', distinct_set='nontrivial',
         rule='case k -> (LP family, seeded LP, configuration, scenario: twins / re-solve / copy at point p by ctor or assignment, victim and '
              'hammer sequence); distinct = hash(LP signature x configuration x scenario seed)',
